@@ -22,6 +22,9 @@ func unify(x, y *Type, m map[string]*Type, inProcess util.PtrPtrSet) *Type {
 		// return nil
 	} else {
 		inProcess.Add(x, y)
+		// a pair is "in process" only while it is being unified: the same (finite)
+		// types may be paired again elsewhere, e.g. in (p, p) ~ (q, q)
+		defer inProcess.Remove(x, y)
 	}
 
 	switch {
